@@ -371,7 +371,8 @@ Lemma delta_rows : forall q fs c l, q_tf q = TCore -> mtime_bad l = false ->
   concat (map (show_filter q m) (delta_batches q fs c l))
   = filter (above q m) (content l).
 Proof.
-  intros q fs c l Hc Hm Hcm m. unfold show_filter, wm_enabled, delta_batches. rewrite Hc.
+  intros q fs c l Hc Hm Hcm m. unfold show_filter, wm_enabled, delta_batches.
+  change (filter_mark fs c) with (frames_mark fs). change (since_mark fs c) with c. rewrite Hc.
   assert (Hc' : q_tf (delta_query q c) = TCore).
   { unfold delta_query. destruct (mark_zero c); [exact Hc|exact Hc]. }
   rewrite <- filter_concat. fold m.
@@ -609,7 +610,7 @@ Lemma show_step : forall l en ch nf,
   /\ Permutation (concat nf) (filter (above (n_q en) (frames_mark (n_frames en))) (content l)).
 Proof.
   intros l [q fs c] ch nf Hl [[Htf Hlim] [Hp Hcat]] Hs Hld. cbn [n_q n_frames n_cat] in *.
-  unfold show_frames in Hs. rewrite Hlim in Hs.
+  unfold show_frames in Hs. change (filter_mark fs c) with (frames_mark fs) in Hs. rewrite Hlim in Hs.
   set (m := frames_mark fs) in *.
   set (fbs := map (show_filter q m) (delta_batches q fs c l)) in *.
   destruct (valid_order fbs (map fst ch)) eqn:V; [|discriminate]. inversion Hs; subst nf; clear Hs.
@@ -710,7 +711,7 @@ Lemma showfail_step : forall l en ch ap rest,
   entry_inv l (mkEntry (n_q en) (n_frames en ++ ap) (n_cat en)).
 Proof.
   intros l [q fs c] ch ap rest Hl [[Htf Hlim] [Hp Hcat]] Hs Hld Hst. cbn [n_q n_frames n_cat] in *.
-  unfold show_fail_frames in Hs. rewrite Hlim in Hs.
+  unfold show_fail_frames in Hs. change (filter_mark fs c) with (frames_mark fs) in Hs. rewrite Hlim in Hs.
   set (m := frames_mark fs) in *.
   set (fbs := map (show_filter q m) (delta_batches q fs c l)) in *.
   destruct (valid_prefix fbs (map fst ch)) eqn:V; [|discriminate]. inversion Hs; subst ap rest; clear Hs.
@@ -896,7 +897,7 @@ Lemma show_out_correct : forall l en ch nf,
   Permutation (show_output (n_q en) (n_frames en) nf) (sel (n_q en) l).
 Proof.
   intros l [q fs c] ch nf Hl [[Htf Hlim] [Hp Hcat]] Hs. cbn [n_q n_frames n_cat] in *.
-  unfold show_frames in Hs. rewrite Hlim in Hs.
+  unfold show_frames in Hs. change (filter_mark fs c) with (frames_mark fs) in Hs. rewrite Hlim in Hs.
   set (m := frames_mark fs) in *.
   set (fbs := map (show_filter q m) (delta_batches q fs c l)) in *.
   destruct (valid_order fbs (map fst ch)) eqn:V; [|discriminate]. inversion Hs; subst nf; clear Hs.
@@ -993,6 +994,7 @@ Proof.
       lia. }
     destruct nf2 as [|f r]; [reflexivity|]. exfalso.
     unfold show_frames in Sf2. rewrite Een1 in Sf2. cbn [n_q n_frames n_cat] in Sf2.
+    change (filter_mark (n_frames en ++ nf1) c1) with (frames_mark (n_frames en ++ nf1)) in Sf2.
     pose proof (reach_inv _ Hr) as [_ Hen0]. destruct (Hen0 _ _ (lookup_In _ _ _ Lk)) as [[_ Hlim] _]. rewrite Hlim in Sf2.
     match type of Sf2 with (if valid_order ?b ?o then _ else _) = _ => destruct (valid_order b o) eqn:V; [|discriminate] end.
     inversion Sf2 as [Hfr].
